@@ -38,7 +38,7 @@ def showRid : Option (List Nat) → String
   | some a => toHex a
 
 /-- ops: reset | file none | file <0|1> <id>* | load | add <k> <id> | remove <k> | set <uid> <id> |
-search <id> | dosearch <id> | getuserid <uid> | lookupall | restart create|open load|noload | poke head|next <i> <v> | attach <v> <s> <V> <S> |
+search <id> | dosearch <id> | getuserid <uid> | lookupall | register <id> <fault 0|1> | restart create|open load|noload | poke head|next <i> <v> | attach <v> <s> <V> <S> |
 peer <add|remove|set|search|dosearch|getuserid|lookupall …> -/
 def showAll (l : List (Nat × List Int)) : String :=
   if l.isEmpty then "-" else
@@ -51,6 +51,24 @@ def peerOps : List String := ["add", "remove", "set", "search", "dosearch", "get
 def stepCore (d : DS) (ws : List String) : DS × String :=
   match ws with
   | ["lookupall"] => noDump d (do let l ← lookupAll d.s; pure (showAll l))
+  | ["register", h, fault] =>
+    match parseId h with
+    | some id =>
+      if fault = "0" ∨ fault = "1" then
+        let canWrite := fault = "0" ∧ d.file.isSome
+        match setupNewUser env d.s id canWrite with
+        | .ok (s', r, uid) =>
+          -- a successful registration writes record uid-1 of .PASSWDS (the file grows when the slot is past its end)
+          let file' := match r, d.file with
+            | .ok, some (recs, torn) =>
+              let k := (uid - 1).toNat
+              let recs' := if k < recs.length then recs else recs ++ List.replicate (k + 1 - recs.length) env.zero
+              some (recs'.set k id, if k < recs.length then torn else false)
+            | _, f => f
+          ({ d with s := s', file := file' }, showRet r ++ " " ++ toString uid ++ " | " ++ dumpSt s' maxU)
+        | .error f => (d, toString f)
+      else (d, "bad-op")
+    | none => (d, "bad-op")
   | ["restart", how, what] =>
     if (how = "create" ∨ how = "open") ∧ (what = "load" ∨ what = "noload") then
       -- the harness's segment always carries the right header words (the `attach` op restores them)
